@@ -23,6 +23,10 @@
 (* seeks to and reads each frame.  Reads have read_exact semantics.  A     *)
 (* batch is emitted only when its whole frame was consumed - which is why  *)
 (* the emitted batches are always a prefix of the written ones (T2).       *)
+(*                                                                         *)
+(* `dev` is the fault-injecting device of FaultOps (step function);  `log` *)
+(* is a history variable, the call log a harness would record: I_DevLog    *)
+(* ties the closed-form reading of a log used by Trace_FaultIO to `dev`.   *)
 (***************************************************************************)
 EXTENDS FaultOps, TLC
 
